@@ -506,6 +506,8 @@ func (e *Engine) contractFootprint(fc *FnContract, fp *footprint) {
 					if sl, ok := under(call.Call.Args[0].Type()).(*types.Slice); ok {
 						fp.mem[elemKey(sl.Elem())] = sl.Elem()
 					}
+				case "gvcModChan":
+					fp.heap["chan."] = nil
 				case "gvcModMap":
 					hk, vk, mt := e.mapKeys(call.Call.Args[0].Type())
 					fp.heap[hk] = nil
@@ -602,8 +604,8 @@ func (e *Engine) frameObligations(st *State, fr *Frame, base *State, allowed *mo
 	c := e.C
 	allocBase := e.allocMap(base)
 	for _, key := range sortedKeys(st.Heap) {
-		if key == "$alloc" {
-			continue
+		if key == "$alloc" || key == "chan.closed" {
+			continue // allocation and channel closure are driven by the environment as well
 		}
 		now := st.Heap[key]
 		was, ok := base.Heap[key]
@@ -611,6 +613,10 @@ func (e *Engine) frameObligations(st *State, fr *Frame, base *State, allowed *mo
 			was = e.C.Var("heap$"+key, now.Sort)
 		}
 		if now == was {
+			continue
+		}
+		if peelsTo(now, was, allowed.heap[key]) {
+			e.Stats["frame-syntactic"]++
 			continue
 		}
 		o := c.Fresh("frame$obj", smt.BV64)
@@ -629,6 +635,10 @@ func (e *Engine) frameObligations(st *State, fr *Frame, base *State, allowed *mo
 			was = e.C.Var("mem$"+key, now.Sort)
 		}
 		if now == was {
+			continue
+		}
+		if peelsTo(now, was, allowed.mem[key]) {
+			e.Stats["frame-syntactic"]++
 			continue
 		}
 		r := c.Fresh("frame$region", smt.BV64)
@@ -715,6 +725,21 @@ func resliceOnly(a *ssa.Alloc, blocks map[*ssa.BasicBlock]bool) bool {
 		default:
 			return false
 		}
+	}
+	return true
+}
+
+// peelsTo: now is was with stores only at allowed indices (syntactic check).
+func peelsTo(now, was *smt.Term, allowed []*smt.Term) bool {
+	ok := map[*smt.Term]bool{}
+	for _, a := range allowed {
+		ok[a] = true
+	}
+	for now != was {
+		if now.Op != smt.OStore || !ok[now.Args[1]] {
+			return false
+		}
+		now = now.Args[0]
 	}
 	return true
 }
